@@ -326,7 +326,11 @@ func c12Owners(r *Run, nOwners int) {
 			return false
 		}
 	}
-	for steps := 0; steps < 6000 && !r.Failed() && !finished(); steps++ {
+	for steps := 0; steps < 6000 && !r.Failed(); steps++ {
+		s.Settle()
+		if finished() {
+			break
+		}
 		if !s.StepOnce(nil, true) {
 			time.Sleep(time.Millisecond)
 		}
